@@ -473,6 +473,21 @@ func TestC20Queries(t *testing.T) {
 			RunSigMsg(v, &sigtypes.MsgStoreSignature{Creator: g.owner.String(), StorageKey: sha256hex(strings.Repeat("zz", 32)),
 				SignatureJSON: `{"signature":"AAAA","algorithm":"ecdsaWithSha256","certificate":"-----BEGIN CERTIFICATE-----\nAAAA\n-----END CERTIFICATE-----"}`})
 		}
+		bigState := rapid.IntRange(0, 9).Draw(t, "bigState") == 0
+		if bigState {
+			// a chain that has been running for a while: more than a hundred recorded vesting accounts, owners with
+			// pools, payload links and stored signatures (queries page through such lists)
+			n := rapid.IntRange(101, 260).Draw(t, "bigStateN")
+			for i := 0; i < n; i++ {
+				a := FreshAddr(40000 + i)
+				makeCVA(v, a, sdk.NewCoins(sdk.NewInt64Coin(Denom, int64(1000+i))), nowS-10, nowS+int64(1000+i), sdk.NewCoins())
+				v.App.CfevestingKeeper.AppendVestingAccountTrace(v.Ctx, vestingtypes.VestingAccountTrace{Address: a.String(), Genesis: i%2 == 0})
+				if i%4 == 0 {
+					_ = v.App.CfevestingKeeper.CreateVestingPool(v.Ctx, KeyAcc(2+i%3).Addr.String(), fmt.Sprintf("b%d", i), sdk.NewInt(int64(10+i)), time.Hour, "vt0")
+				}
+				RunSigMsg(v, &sigtypes.MsgPublishReferencePayloadLink{Creator: g.owner.String(), Key: fmt.Sprintf("k%03d", i), Value: "l"})
+			}
+		}
 		app := v.App
 		ctx := sdk.WrapSDKContext(v.Ctx)
 		disturbed := g.disturb()
@@ -550,7 +565,7 @@ func TestC20Queries(t *testing.T) {
 		if pan != nil {
 			t.Fatalf("query %s panicked: %v (state %d %s)", name, pan, stateKind, disturbed)
 		}
-		st.Case(true, map[string]interface{}{"query": name, "state": stateKind, "ref": ref}, "query_"+name)
+		st.Case(true, map[string]interface{}{"query": name, "state": stateKind, "ref": ref, "big": bigState}, append(map[bool][]string{true: {"state_with_more_than_100_recorded_accounts"}}[bigState], "query_"+name)...)
 	})
 }
 
